@@ -266,3 +266,342 @@ int cs_terms_residual(vnacal_t *vcp, int ci, const cs_scenario *sc,
     }
     return 0;
 }
+
+/* ------------------------------------------------------------------ */
+/*
+ * cs_terms_gradient: with inconsistent (noisy) measurements the solved
+ * terms must minimise the sum of squares of the documented equations the
+ * standards contribute (vnacal_new(3): an equation per measured row and
+ * standard column -- U: standard row and measured column -- that the
+ * standard was given for and connects through a signal path; leakage terms
+ * outside the system are the mean of the measured cells without such a
+ * path and are subtracted first).  The equations are linear in the terms,
+ * so the test is exact: for every free term t the residual vector r is
+ * orthogonal to dr/dt = r(e + 1_t) - r(e).
+ *
+ * Types: T8 U8 TE10 UE10 T16 U16 UE14 (E12 is solved as UE14 and then
+ * converted, which is not linear).  m form only.  Sets *worst to the
+ * largest |<dr/dt, r>| / (|dr/dt| |r|), *rnorm to the largest |r| per
+ * frequency relative to the terms' magnitude (0: data were consistent,
+ * the test says nothing), *lworst to the largest relative deviation of an
+ * outside leakage term from the mean of its cells.  Returns 0, or -1 when
+ * the calibration cannot be inspected.
+ */
+typedef struct {
+    int type, P, rows, cols;
+    const vnacal_layout_t *vl;
+} gctx_t;
+
+/* residuals of standard k's equations for term vector e into out[] */
+static int std_residuals(const gctx_t *g, const double complex *e,
+	const cs_scenario *sc, int k, const lc_t *S, const lc_t *Min,
+	const bool *mgiven, lc_t *out)
+{
+    const int P = g->P, rows = g->rows, cols = g->cols;
+    const vnacal_layout_t *vl = g->vl;
+    const cs_std *st = &sc->std[k];
+    bool inmap[CS_MAXP] = { false }, conn[NS];
+    int comp[CS_MAXP];
+    lc_t M[NS];
+    int n = 0;
+
+    for (int i = 0; i < st->np; ++i)
+	inmap[st->port[i] - 1] = true;
+    /* connected components of the standard's S graph (structural zeros:
+       cells the recipe marks as implied zero) */
+    for (int i = 0; i < P; ++i)
+	comp[i] = i;
+    for (int a = 0; a < st->np; ++a)
+	for (int b = 0; b < st->np; ++b) {
+	    bool zero = st->sp[a * st->np + b] < 0 &&
+		st->sv[a * st->np + b] == 0.0;
+	    if (a != b && !zero) {
+		int ca = comp[st->port[a] - 1], cb = comp[st->port[b] - 1];
+		for (int i = 0; i < P; ++i)
+		    if (comp[i] == cb)
+			comp[i] = ca;
+	    }
+	}
+    for (int i = 0; i < P; ++i)
+	for (int j = 0; j < P; ++j)
+	    conn[i * P + j] = inmap[i] && inmap[j] && comp[i] == comp[j];
+    const bool full = g->type == VNACAL_T16 || g->type == VNACAL_U16;
+
+    memcpy(M, Min, sizeof(M));
+    /* outside leakage */
+    if (g->type == VNACAL_TE10 || g->type == VNACAL_UE10 ||
+	    g->type == VNACAL_UE14) {
+	const double complex *el = &e[VL_EL_OFFSET(vl)];
+	for (int i = 0; i < rows; ++i)
+	    for (int j = 0; j < cols; ++j)
+		if (i != j)
+		    M[i * P + j] -= *el++;
+    }
+    /* cells that were not handed over read zero */
+    for (int i = 0; i < rows; ++i)
+	for (int j = 0; j < cols; ++j)
+	    if (!mgiven[i * P + j])
+		M[i * P + j] = 0;
+
+    switch (g->type) {
+    case VNACAL_T8: case VNACAL_TE10: case VNACAL_T16: {
+	mat_t Ts, Ti, Tx, Tm;
+	if (full) {
+	    fill_full(&Ts, P, &e[VL_TS_OFFSET(vl)], rows, P);
+	    fill_full(&Ti, P, &e[VL_TI_OFFSET(vl)], rows, P);
+	    fill_full(&Tx, P, &e[VL_TX_OFFSET(vl)], cols, P);
+	    fill_full(&Tm, P, &e[VL_TM_OFFSET(vl)], cols, P);
+	} else {
+	    fill_diag(&Ts, P, &e[VL_TS_OFFSET(vl)], VL_TS_TERMS(vl));
+	    fill_diag(&Ti, P, &e[VL_TI_OFFSET(vl)], VL_TI_TERMS(vl));
+	    fill_diag(&Tx, P, &e[VL_TX_OFFSET(vl)], VL_TX_TERMS(vl));
+	    fill_diag(&Tm, P, &e[VL_TM_OFFSET(vl)], VL_TM_TERMS(vl));
+	}
+	for (int i = 0; i < rows; ++i) {
+	    bool rowgiven = false;
+	    for (int c = 0; c < cols; ++c)
+		if (mgiven[i * P + c])
+		    rowgiven = true;
+	    for (int j = 0; j < P; ++j) {
+		if (!rowgiven || !inmap[j] || (!full && !conn[i * P + j]))
+		    continue;
+		lc_t r = Ti.v[i * P + j];
+		for (int q = 0; q < P; ++q)
+		    r += Ts.v[i * P + q] * S[q * P + j];
+		for (int c = 0; c < cols; ++c) {
+		    lc_t w = Tm.v[c * P + j];
+		    for (int q = 0; q < P; ++q)
+			w += Tx.v[c * P + q] * S[q * P + j];
+		    r -= M[i * P + c] * w;
+		}
+		out[n++] = r;
+	    }
+	}
+	break;
+    }
+    case VNACAL_U8: case VNACAL_UE10: case VNACAL_U16: {
+	mat_t Um, Ui, Ux, Us;
+	if (full) {
+	    fill_full(&Um, P, &e[VL_UM_OFFSET(vl)], P, rows);
+	    fill_full(&Ui, P, &e[VL_UI_OFFSET(vl)], P, cols);
+	    fill_full(&Ux, P, &e[VL_UX_OFFSET(vl)], P, rows);
+	    fill_full(&Us, P, &e[VL_US_OFFSET(vl)], P, cols);
+	} else {
+	    fill_diag(&Um, P, &e[VL_UM_OFFSET(vl)], VL_UM_TERMS(vl));
+	    fill_diag(&Ui, P, &e[VL_UI_OFFSET(vl)], VL_UI_TERMS(vl));
+	    fill_diag(&Ux, P, &e[VL_UX_OFFSET(vl)], VL_UX_TERMS(vl));
+	    fill_diag(&Us, P, &e[VL_US_OFFSET(vl)], VL_US_TERMS(vl));
+	}
+	for (int i = 0; i < P; ++i)
+	    for (int j = 0; j < cols; ++j) {
+		bool colgiven = false;
+		for (int q = 0; q < rows; ++q)
+		    if (mgiven[q * P + j])
+			colgiven = true;
+		if (!colgiven || !inmap[i] || (!full && !conn[i * P + j]))
+		    continue;
+		lc_t r = Ui.v[i * P + j];
+		for (int q = 0; q < rows; ++q)
+		    r += Um.v[i * P + q] * M[q * P + j];
+		for (int q = 0; q < P; ++q) {
+		    lc_t w = Us.v[q * P + j];
+		    for (int m = 0; m < rows; ++m)
+			w += Ux.v[q * P + m] * M[m * P + j];
+		    r -= S[i * P + q] * w;
+		}
+		out[n++] = r;
+	    }
+	break;
+    }
+    case VNACAL_UE14:
+	for (int c = 0; c < cols; ++c) {
+	    const double complex *um = &e[VL_UM14_OFFSET(vl, c)];
+	    const double complex ui = e[VL_UI14_OFFSET(vl, c)];
+	    const double complex *ux = &e[VL_UX14_OFFSET(vl, c)];
+	    const double complex us = e[VL_US14_OFFSET(vl, c)];
+	    bool colgiven = false;
+	    for (int q = 0; q < rows; ++q)
+		if (mgiven[q * P + c])
+		    colgiven = true;
+	    for (int i = 0; i < P; ++i) {
+		if (!colgiven || !inmap[i] || !conn[i * P + c])
+		    continue;
+		lc_t r = (lc_t)um[i] * M[i * P + c];
+		if (i == c)
+		    r += ui;
+		for (int q = 0; q < P; ++q) {
+		    lc_t w = (lc_t)ux[q] * M[q * P + c];
+		    if (q == c)
+			w += us;
+		    r -= S[i * P + q] * w;
+		}
+		out[n++] = r;
+	    }
+	}
+	break;
+    default:
+	return -1;
+    }
+    return n;
+}
+
+int cs_terms_gradient(vnacal_t *vcp, int ci, const cs_scenario *sc,
+	long double *worst, long double *rnorm, long double *lworst)
+{
+    const cs_vna *v = &sc->vna;
+    const int P = v->P, rows = v->rows, cols = v->cols;
+    const vnacal_calibration_t *calp = _vnacal_get_calibration(vcp, ci);
+    vnacal_layout_t vl;
+    static cs_c Mf[CS_MAXSTD][CS_MAXF][NS];
+    static lc_t r0[CS_MAXSTD * NS], r1[CS_MAXSTD * NS];
+    gctx_t g;
+
+    *worst = *rnorm = *lworst = 0;
+    if (calp == NULL || calp->cal_rows != rows || calp->cal_columns != cols
+	    || calp->cal_type != v->type || calp->cal_frequencies != v->nf ||
+	    sc->ab || v->type == VNACAL_E12)
+	return -1;
+    _vnacal_layout(&vl, v->type, rows, cols);
+    if (calp->cal_error_terms != VL_ERROR_TERMS(&vl))
+	return -1;
+    g.type = v->type; g.P = P; g.rows = rows; g.cols = cols; g.vl = &vl;
+    for (int k = 0; k < sc->nstd; ++k)
+	if (cs_std_measure(sc, k, Mf[k]) != 0)
+	    return -1;
+
+    const bool leak = v->type == VNACAL_TE10 || v->type == VNACAL_UE10 ||
+	v->type == VNACAL_UE14;
+    const int nterms = calp->cal_error_terms;
+    const int nfree = leak ? VL_EL_OFFSET(&vl) : nterms;
+
+    for (int f = 0; f < v->nf; ++f) {
+	double complex e[8 * NS];
+	lc_t S[CS_MAXSTD][NS], M[CS_MAXSTD][NS];
+	bool mgiven[CS_MAXSTD][NS];
+	long double emax = 0;
+
+	for (int t = 0; t < nterms; ++t) {
+	    e[t] = calp->cal_error_term_vector[t][f];
+	    if (cabs(e[t]) > emax)
+		emax = cabs(e[t]);
+	}
+	for (int k = 0; k < sc->nstd; ++k) {
+	    const cs_std *st = &sc->std[k];
+	    cs_c Sd[NS];
+	    bool inmap[CS_MAXP] = { false };
+
+	    cs_std_S(sc, st, f, Sd);
+	    for (int i = 0; i < st->np; ++i)
+		inmap[st->port[i] - 1] = true;
+	    for (int i = 0; i < P * P; ++i) {
+		S[k][i] = Sd[i];
+		M[k][i] = 0;
+		mgiven[k][i] = false;
+	    }
+	    for (int i = 0; i < rows; ++i)
+		for (int j = 0; j < cols; ++j) {
+		    M[k][i * P + j] = Mf[k][f][i * cols + j];
+		    mgiven[k][i * P + j] =
+			(!st->abbrev_rows || inmap[i]) &&
+			(!st->abbrev_cols || inmap[j]);
+		}
+	}
+	/* outside leakage terms: mean of the given cells without a path */
+	if (leak) {
+	    const double complex *el = &e[VL_EL_OFFSET(&vl)];
+	    for (int i = 0; i < rows; ++i)
+		for (int j = 0; j < cols; ++j) {
+		    if (i == j)
+			continue;
+		    lc_t sum = 0;
+		    int cnt = 0;
+		    for (int k = 0; k < sc->nstd; ++k) {
+			const cs_std *st = &sc->std[k];
+			int comp[CS_MAXP];
+			bool inmap[CS_MAXP] = { false };
+			for (int a = 0; a < P; ++a) comp[a] = a;
+			for (int a = 0; a < st->np; ++a)
+			    inmap[st->port[a] - 1] = true;
+			for (int a = 0; a < st->np; ++a)
+			    for (int b = 0; b < st->np; ++b) {
+				bool zero = st->sp[a * st->np + b] < 0 &&
+				    st->sv[a * st->np + b] == 0.0;
+				if (a != b && !zero) {
+				    int ca = comp[st->port[a] - 1];
+				    int cb = comp[st->port[b] - 1];
+				    for (int x = 0; x < P; ++x)
+					if (comp[x] == cb) comp[x] = ca;
+				}
+			    }
+			bool connected = inmap[i] && inmap[j] &&
+			    comp[i] == comp[j];
+			if (!connected && mgiven[k][i * P + j]) {
+			    sum += M[k][i * P + j];
+			    ++cnt;
+			}
+		    }
+		    if (cnt > 0) {
+			long double d = cabsl((lc_t)*el - sum / cnt) /
+			    (cabsl(sum / cnt) + 1e-6L * emax + 1e-300L);
+			if (!(d <= *lworst))
+			    *lworst = d;
+		    }
+		    ++el;
+		}
+	}
+	/* residual vector at the solution */
+	int n0 = 0;
+	for (int k = 0; k < sc->nstd; ++k) {
+	    int n = std_residuals(&g, e, sc, k, S[k], M[k], mgiven[k],
+		    &r0[n0]);
+	    if (n < 0)
+		return -1;
+	    n0 += n;
+	}
+	long double rr = 0;
+	for (int i = 0; i < n0; ++i)
+	    rr += creall(r0[i] * conjl(r0[i]));
+	rr = sqrtl(rr);
+	if (!(rr / (emax + 1e-300L) <= *rnorm))
+	    *rnorm = rr / (emax + 1e-300L);
+	if (rr == 0)
+	    continue;
+	for (int t = 0; t < nfree; ++t) {
+	    bool unity = false;
+	    /* the term fixed at 1: tm11 / um11; UE14: um_cc of column c */
+	    if (v->type == VNACAL_UE14) {
+		for (int sys = 0; sys < cols; ++sys)
+		    if (VL_UM14_OFFSET(&vl, sys) + sys == t)
+			unity = true;
+	    } else if (_vl_unity_offset(&vl, 0) == t)
+		unity = true;
+	    if (unity)
+		continue;
+	    double complex e1[8 * NS];
+	    memcpy(e1, e, sizeof(double complex) * (size_t)nterms);
+	    e1[t] += 1.0;
+	    int n1 = 0;
+	    for (int k = 0; k < sc->nstd; ++k)
+		n1 += std_residuals(&g, e1, sc, k, S[k], M[k], mgiven[k],
+			&r1[n1]);
+	    if (n1 != n0)
+		return -1;
+	    lc_t dot = 0;
+	    long double dd = 0;
+	    for (int i = 0; i < n0; ++i) {
+		lc_t d = r1[i] - r0[i];
+		dot += conjl(d) * r0[i];
+		dd += creall(d * conjl(d));
+	    }
+	    if (dd == 0)
+		continue;
+	    long double gcos = cabsl(dot) / (sqrtl(dd) * rr);
+	    if (vf_verbose && gcos > 1e-8L)
+		vf_note("  gradient: f%d term %d: cos %.3Le (|r| %.3Le)", f, t,
+			gcos, rr);
+	    if (!(gcos <= *worst))
+		*worst = gcos;
+	}
+    }
+    return 0;
+}
